@@ -623,7 +623,7 @@ def gen_cases(chk, n):
 
 def run(chk):
     chk.prove([edpos_tr.translate])
-    n = 1500 if chk.thorough else 200
+    n = 1200 if chk.thorough else 160
     cases = load_corpus() + gen_cases(chk, n)
     impl = run_impl(cases)
     vals, errs = core.coq_eval("C34", IMPORTS, [coq_expr(c) for c in cases])
